@@ -20,6 +20,7 @@ type waiter struct {
 	r     Readier
 	grant chan struct{}
 	seq   uint64
+	owner string // task that parked here (see Sim.Current)
 }
 
 // Task is a named goroutine running real code under the simulator.
@@ -44,12 +45,14 @@ type Violation struct {
 type Sim struct {
 	T *Tape
 
-	mu       sync.Mutex
+	mu       HMutex
 	waiters  []*waiter
 	wake     chan struct{}
 	tasks    []*Task
 	ended    bool
 	arrivals uint64
+	current  string // name of the task the scheduler released last
+	raceTok  int    // address used for end-of-run happens-before edges under the race detector
 
 	Step      uint64
 	MaxSteps  uint64
@@ -65,13 +68,16 @@ type Sim struct {
 	TraceOn    bool
 	TraceMax   int
 	SchedForks int // scheduling decisions with >1 enabled
-	Faults     map[string]int
+	Faults     map[string]int // written from the root goroutine only; tasks use Fault()/Probe()
 	Probes     map[string]int
+	faultC     counter
+	probeC     counter
 	Violations []Violation
 	Quiescent  bool
 	EndAt      time.Duration // simulated time at the end of the run
 	Overrun    bool
 	BlockedAt  []string // keys of primitives still parked when the run ended
+	PostRun    func()   // run by the driver after the bubble has ended (real clock, real goroutines)
 	Notes      []string
 }
 
@@ -98,11 +104,9 @@ func NewSim(t *Tape) *Sim {
 // Log records an event in the run's hash (and trace when enabled). It never
 // draws from the tape and never reads a real clock.
 func (s *Sim) Log(ev string) {
-	raceOff()
 	s.mu.Lock()
 	s.logLocked(ev)
 	s.mu.Unlock()
-	raceOn()
 }
 
 func (s *Sim) logLocked(ev string) {
@@ -124,43 +128,35 @@ func (s *Sim) Hash() uint64 { return s.hash }
 
 // Fault counts a fault that actually fired.
 func (s *Sim) Fault(kind string) {
-	raceOff()
 	s.mu.Lock()
-	s.Faults[kind]++
+	s.faultC.inc(kind)
 	s.logLocked("fault:" + kind)
 	s.mu.Unlock()
-	raceOn()
 }
 
 // Probe counts a reached branch of interest.
 func (s *Sim) Probe(name string) {
-	raceOff()
 	s.mu.Lock()
-	s.Probes[name]++
+	s.probeC.inc(name)
 	s.mu.Unlock()
-	raceOn()
 }
 
 // Violate records a property violation. sig identifies the specific failing
 // shape (input class / call site), not the seed.
 func (s *Sim) Violate(class, sig, msg string) {
-	raceOff()
 	s.mu.Lock()
 	s.Violations = append(s.Violations, Violation{class, sig, msg})
 	s.logLocked("VIOLATION " + class + "/" + sig)
 	s.mu.Unlock()
-	raceOn()
 }
 
 // Note attaches free text to the run (shown in replay traces).
 func (s *Sim) Note(format string, a ...any) {
-	raceOff()
 	s.mu.Lock()
 	if len(s.Notes) < 200 {
 		s.Notes = append(s.Notes, fmt.Sprintf(format, a...))
 	}
 	s.mu.Unlock()
-	raceOn()
 }
 
 // Ended reports whether the run is being torn down.
@@ -171,20 +167,29 @@ func (s *Sim) Now() time.Duration { return time.Since(s.Start) }
 
 // Park blocks the calling goroutine until the scheduler selects it. key is the
 // canonical identity of the primitive (independent of arrival order).
-func (s *Sim) Park(key string, r Readier) {
-	raceOff()
-	w := &waiter{key: key, r: r, grant: make(chan struct{})}
+func (s *Sim) Park(key string, r Readier) { s.parkAs("", key, r) }
+
+// Current names the task that is running: tasks run one at a time, so it is the
+// task the scheduler released last. (A goroutine the code under test started by
+// itself is attributed to the task that was running when it first parked.)
+func (s *Sim) Current() string { return s.current }
+
+func (s *Sim) parkAs(owner, key string, r Readier) {
+	w := &waiter{key: key, r: r, grant: make(chan struct{}), owner: owner}
 	s.mu.Lock()
+	if w.owner == "" {
+		w.owner = s.current
+	}
 	if s.ended {
 		// no scheduler is running (between phases or after the run): do not block
 		s.mu.Unlock()
-		raceOn()
 		return
 	}
 	s.arrivals++
 	w.seq = s.arrivals
 	s.waiters = append(s.waiters, w)
 	s.mu.Unlock()
+	raceOff() // the hand-off must not order tasks for the race detector
 	select {
 	case s.wake <- struct{}{}:
 	default:
@@ -213,43 +218,40 @@ func (s *Sim) Sleep(key string, d time.Duration) {
 
 // AddTimer tells the scheduler that something becomes ready at t.
 func (s *Sim) AddTimer(t time.Time) {
-	raceOff()
 	s.mu.Lock()
 	s.timers = append(s.timers, t)
 	s.mu.Unlock()
-	raceOn()
 }
 
 // Go starts a task. The task parks once before running so that start order is
 // a scheduler decision.
 func (s *Sim) Go(name string, fn func()) *Task {
 	tk := &Task{Name: name, sim: s}
-	raceOff()
 	s.mu.Lock()
 	s.ended = false // starting a task after a finished Run opens the next phase
 	s.tasks = append(s.tasks, tk)
 	s.mu.Unlock()
-	raceOn()
 	go func() {
 		defer func() {
 			if r := recover(); r != nil {
 				tk.Panic = r
 				tk.Stack = string(debug.Stack())
 			}
-			raceOff()
+			raceReleaseMerge(&s.raceTok) // what the task did happens before whatever follows Run
 			s.mu.Lock()
 			tk.Done = true
 			tk.DoneAt = time.Now()
 			tk.DoneStep = s.Step
 			s.logLocked("done:" + name)
 			s.mu.Unlock()
+			raceOff()
 			select {
 			case s.wake <- struct{}{}:
 			default:
 			}
 			raceOn()
 		}()
-		s.Yield("start:" + name)
+		s.parkAs(name, "start:"+name, always{})
 		fn()
 	}()
 	return tk
@@ -274,19 +276,18 @@ func (s *Sim) Run() {
 	s.mu.Unlock()
 	done := make(chan struct{})
 	go func() {
-		raceOff() // scheduler: its hand-offs must not order the tasks for the race detector
 		s.loop()
 		s.teardown()
-		raceOn()
 		close(done)
 	}()
 	<-done
+	raceAcquire(&s.raceTok)
 }
 
 func (s *Sim) loop() {
 	idle := 0
 	for {
-		synctest.Wait()
+		hiddenWait()
 		s.mu.Lock()
 		if s.allDone() {
 			s.mu.Unlock()
@@ -327,14 +328,21 @@ func (s *Sim) loop() {
 			w := enabled[i]
 			for j, x := range s.waiters {
 				if x == w {
-					s.waiters = append(s.waiters[:j], s.waiters[j+1:]...)
+					// (element-wise: the runtime's bulk copy of pointer elements carries race
+					// detector hooks even for un-instrumented callers; see counter)
+					for k := j; k+1 < len(s.waiters); k++ {
+						s.waiters[k] = s.waiters[k+1]
+					}
+					s.waiters[len(s.waiters)-1] = nil
+					s.waiters = s.waiters[:len(s.waiters)-1]
 					break
 				}
 			}
 			s.Step++
+			s.current = w.owner
 			s.logLocked("run:" + w.key)
 			s.mu.Unlock()
-			close(w.grant)
+			hiddenClose(w.grant)
 			continue
 		}
 		s.mu.Unlock()
@@ -350,12 +358,14 @@ func (s *Sim) loop() {
 				return
 			}
 		}
+		raceOff()
 		tm := time.NewTimer(d)
 		select {
 		case <-s.wake:
 			tm.Stop()
 		case <-tm.C:
 		}
+		raceOn()
 	}
 }
 
@@ -372,7 +382,7 @@ func (s *Sim) teardown() {
 	// they do on the way out (close connections, log task completion) happens in the
 	// same order whatever the number of processors.
 	for i := 0; i < 1000000; i++ {
-		synctest.Wait()
+		hiddenWait()
 		s.mu.Lock()
 		if len(s.waiters) == 0 {
 			s.mu.Unlock()
@@ -382,9 +392,54 @@ func (s *Sim) teardown() {
 		w := s.waiters[0]
 		s.waiters = s.waiters[1:]
 		s.mu.Unlock()
-		close(w.grant)
+		hiddenClose(w.grant)
 	}
 }
+
+// counter counts named events without a Go map: map operations carry race-detector
+// hooks inside the runtime even when the calling package is compiled without
+// instrumentation, and simulator state must stay invisible to the detector (C17).
+type counter struct {
+	k []string
+	v []int
+}
+
+func (c *counter) inc(name string) {
+	for i, k := range c.k {
+		if k == name {
+			c.v[i]++
+			return
+		}
+	}
+	c.k = append(c.k, name)
+	c.v = append(c.v, 1)
+}
+
+func (c *counter) mergeInto(m map[string]int) map[string]int {
+	out := map[string]int{}
+	for k, v := range m {
+		out[k] = v
+	}
+	for i, k := range c.k {
+		out[k] += c.v[i]
+	}
+	return out
+}
+
+// AllFaults / AllProbes return the fault and probe counts of the run (call after Run).
+func (s *Sim) AllFaults() map[string]int { return s.faultC.mergeInto(s.Faults) }
+func (s *Sim) AllProbes() map[string]int { return s.probeC.mergeInto(s.Probes) }
+
+// HMutex is a mutex whose acquire/release edges are hidden from the race
+// detector: the simulator's own locking must not order the tasks it serialises.
+type HMutex struct{ mu sync.Mutex }
+
+func (m *HMutex) Lock()   { raceOff(); m.mu.Lock(); raceOn() }
+func (m *HMutex) Unlock() { raceOff(); m.mu.Unlock(); raceOn() }
+
+func hiddenWait() { raceOff(); synctest.Wait(); raceOn() }
+
+func hiddenClose(c chan struct{}) { raceOff(); close(c); raceOn() }
 
 // Tasks returns the tasks started so far.
 func (s *Sim) Tasks() []*Task { return s.tasks }
